@@ -234,6 +234,15 @@ Proof.
     destruct (chain_in _ _ _ _ _ C1 Hin) as (_ & _ & ?). exact H.
 Qed.
 
+(* an in-place operator that NumPy's same_kind casting refuses changes nothing at all *)
+Theorem op_refused_nothing st i oj : fst (step st (OOpRefused i oj)) = st /\
+  exists e, snd (step st (OOpRefused i oj)) = RErr e.
+Proof.
+  simpl. destruct (is_live st i && _); [|split; [reflexivity|eexists; reflexivity]].
+  destruct oj as [j|]; [destruct (negb _ || negb _)|]; try (split; [reflexivity|eexists; reflexivity]);
+    destruct (offs (getseq st i)); (split; [reflexivity|eexists; reflexivity]).
+Qed.
+
 (* ---------------------------------------------------------------- the four further operations *)
 (* a refused append (wrong trailing shape; cached build or not) changes nothing at all *)
 Theorem append_bad_nothing st i : fst (step st (OAppendBad i)) = st /\
